@@ -55,7 +55,8 @@ def tpl_req(size, simple, n1, sh, bad, n2, x3, a3, x4, a4, x5, a5, t, _twin=Fals
                 args, kwargs = SHAPES[k]
         raising = (bad,) if bad >= 0 else ()
         if simple:
-            fn = w.callsite(0, w.worker(0), raising)
+            # the pool's function is a decorator-style wrapper: its advertised signature needs one more argument
+            fn = w.callsite(0, w.worker(0), raising, decorated=True)
             pool = SimpleTaskPool(fn, args=args, kwargs=kwargs, pool_size=size)
         else:
             pool = TaskPool(pool_size=size)
@@ -64,7 +65,7 @@ def tpl_req(size, simple, n1, sh, bad, n2, x3, a3, x4, a4, x5, a5, t, _twin=Fals
             if simple:
                 it.start(n1)
             else:
-                it.apply(n1, args=args, kwargs=kwargs, raising=raising)
+                it.apply(n1, args=args, kwargs=kwargs, raising=raising, decorated=True)
             w.ticks(t)
             if simple:
                 it.start(n2)
